@@ -21,6 +21,8 @@ type fp struct {
 	dport   uint16
 	op      byte
 	mac     [6]byte
+	hlen    byte     // BOOTP hlen (0 = 6)
+	chx     [10]byte // chaddr bytes 6..15
 	xid     uint32
 	flags   uint16
 	ciaddr  uint32
@@ -38,13 +40,18 @@ func defFP() fp {
 
 func (p fp) bootp() []byte {
 	b := make([]byte, 240, 240+len(p.opts))
-	b[0], b[1], b[2], b[3] = p.op, 1, 6, 1
+	hl := p.hlen
+	if hl == 0 {
+		hl = 6
+	}
+	b[0], b[1], b[2], b[3] = p.op, 1, hl, 1
 	binary.BigEndian.PutUint32(b[4:], p.xid)
 	binary.BigEndian.PutUint16(b[8:], 7)
 	binary.BigEndian.PutUint16(b[10:], p.flags)
 	binary.BigEndian.PutUint32(b[12:], p.ciaddr)
 	binary.BigEndian.PutUint32(b[24:], p.giaddr)
 	copy(b[28:], p.mac[:])
+	copy(b[34:], p.chx[:])
 	for i := 44; i < 236; i++ {
 		b[i] = p.sname
 	}
@@ -437,6 +444,7 @@ func (comp) Gen(r *rand.Rand, tier string, emit func([]string)) {
 	genTruncation(r, tier, emit)
 	genMutation(r, tier, emit)
 	genRandom(r, tier, emit)
+	genHlen(r, tier, emit)
 	genExhaustive(r, tier, emit)
 	genServer(r, tier, emit)
 }
